@@ -32,7 +32,7 @@
 From stdpp Require Import gmap.
 From Verif.Common Require Import Sync.
 From Verif.C02 Require Import Model Spec.
-From Verif.C01 Require Import Model Spec Compose Instances Passthru L3Reflag L3Meets.
+From Verif.C01 Require Import Model Spec Compose Instances Passthru L3Reflag L3Meets RoutesPools.
 From Verif.C01 Require InstC04 InstC07.
 
 (* --- the graph model: a synchronous producer->consumer composition runs the consumer on everything the producer emitted *)
@@ -163,6 +163,28 @@ Theorem c01_l3_model_meets_spec : forall (ops : list gop),
   = (true, true).
 Proof. exact l3_model_meets_spec. Qed.
 Print Assumptions c01_l3_model_meets_spec.
+
+(* a second closed instance of the whole-graph theorem, with a STATEFUL node: IP pool passthru + the repaired L3
+   block/workload route slice in front of the sequencer.  No hypothesis about the graph: any two histories (pool
+   upserts/deletes, batches of route-trie entry changes, in-sync, flushes) that end with a flush and describe the
+   same final inputs yield the same dataplane *)
+Theorem c01_history_independent_routes_pools : forall (blk : N -> N) h1 h2,
+  rp_admitted h1 -> rp_admitted h2 -> net GX h1 = net GX h2 ->
+  dp_of (n_outs (pipe_seq (rp_node blk) (seq_node true)) h1) = dp_of (n_outs (pipe_seq (rp_node blk) (seq_node true)) h2).
+Proof. exact rp_graph_history_independent. Qed.
+Print Assumptions c01_history_independent_routes_pools.
+
+Example c01_routes_pools_example :
+  let blk := fun _ : N => 5%N in
+  let h1 := [GL3 [BlockSet 5 1]; GFlush; GPool (Upsert 1 10); GL3 [WepSet 7 0]; GPool (Upsert 2 3); GInSync; GFlush;
+             GPool (Delete 2); GFlush]%N in
+  let h2 := [GL3 [WepSet 7 0]; GPool (Upsert 1 10); GL3 [BlockSet 5 1]; GInSync; GFlush]%N in
+  rp_admitted h1 /\ rp_admitted h2 /\ bool_decide (net GX h1 = net GX h2) = true /\
+  same_dp (n_outs (pipe_seq (rp_node blk) (seq_node true)) h1) (n_outs (pipe_seq (rp_node blk) (seq_node true)) h2) = true.
+Proof.
+  split; [by eexists (_ :: _ :: _ :: _ :: _ :: _ :: _ :: [_])|]. split; [by eexists (_ :: _ :: _ :: [_])|].
+  split; vm_compute; reflexivity.
+Qed.
 
 (* --- node lemmas imported from the properties that own the node models *)
 Module IPSetIndex.
